@@ -257,6 +257,7 @@ func cmdCheck(args []string) {
 	specDir := fs.String("spec", "/verif/spec", "spec directory")
 	outDir := fs.String("out", "/verif", "output root (evidence/, replay/)")
 	sec := fs.Int("timeout", 0, "seconds per obligation (0: 10 quick / 60 thorough)")
+	keep := fs.String("keep", "", "keep the SMT files in this directory (debugging)")
 	fs.Parse(args)
 	t0 := time.Now()
 	seed, _ := strconv.Atoi(os.Getenv("VERIF_SEED"))
@@ -294,6 +295,11 @@ func cmdCheck(args []string) {
 	}
 	scratch, _ := os.MkdirTemp("/var/tmp", "govc.")
 	defer os.RemoveAll(scratch)
+	if *keep != "" {
+		os.MkdirAll(*keep, 0o755)
+		scratch = *keep
+		KeepFiles = true
+	}
 	replayDir := filepath.Join(*outDir, "replay", cfg.ID)
 	os.RemoveAll(replayDir)
 
@@ -303,6 +309,7 @@ func cmdCheck(args []string) {
 	var knownLines []string
 	trusted := map[string]bool{}
 	nObl, nDis := 0, 0
+	nRetried := 0
 	var solverMs int64
 	var samples []map[string]string
 	covers := map[string]string{}
@@ -548,6 +555,18 @@ func cmdCheck(args []string) {
 			}
 		}
 		DischargeAll(items, scratch, *sec, 16, *tier == "thorough")
+		// obligations left undecided (timeout / unknown) are retried once with six times the budget and less
+		// parallelism: a loaded machine must not turn into an alarm
+		var retry []item
+		for _, it := range items {
+			if it.O.Result == "timeout" || it.O.Result == "unknown" {
+				retry = append(retry, it)
+			}
+		}
+		if len(retry) > 0 && len(retry) <= 64 {
+			DischargeAll(retry, scratch, *sec*6, 4, *tier == "thorough")
+			nRetried += len(retry)
+		}
 		for _, n := range names {
 			r := results[n]
 			if r == nil {
@@ -564,6 +583,7 @@ func cmdCheck(args []string) {
 				trusted[a] = true
 			}
 			coverOK := map[string]bool{}
+			coverUndecided := map[string]bool{}
 			for _, o := range r.Obls {
 				solverMs += o.Ms
 				fr.SolverMs += o.Ms
@@ -583,6 +603,9 @@ func cmdCheck(args []string) {
 						coverOK[base] = true
 					} else if _, ok := coverOK[base]; !ok {
 						coverOK[base] = false
+					}
+					if o.Result != "sat" && o.Result != "skipped" && o.Result != "unsat" {
+						coverUndecided[base] = true
 					}
 					continue
 				}
@@ -608,7 +631,11 @@ func cmdCheck(args []string) {
 				covers[shortName(n)+"#"+c] = map[bool]string{true: "reachable", false: "UNREACHABLE"}[ok]
 				if !ok {
 					fr.Status = "failed"
-					problem("vacuous", n, c, "cover query unsatisfiable: precondition / success path is contradictory", nil, nil)
+					if coverUndecided[c] {
+						problem("vacuous", n, c, "cover query not shown satisfiable within the (retried, sixfold) budget: reachability of the precondition / success path / antecedent is undecided", nil, nil)
+					} else {
+						problem("vacuous", n, c, "cover query unsatisfiable: precondition / success path is contradictory", nil, nil)
+					}
 				}
 			}
 			funcs = append(funcs, fr)
@@ -703,6 +730,7 @@ func cmdCheck(args []string) {
 		"explanation":              cfg.Explain,
 		"known_findings_reported":  knownLines,
 		"bounded_checks":           boundedRes,
+		"retried_with_longer_budget": nRetried,
 	}
 	ev := map[string]interface{}{
 		"property_id": cfg.ID,
